@@ -37,7 +37,8 @@ impl RandomPolicy {
 
             let max = self.store.len();
             if max == 0 {
-                self.decr_mem_usage(usage);
+                // nothing is stored any more: only the record being added is accounted
+                self.memory_usage.store(value, atomic::Ordering::Release);
                 break;
             }
             let item = small_rng.gen_range(0..max);
